@@ -514,6 +514,7 @@ func TestC03(t *testing.T) {
 				mod := []byte(stream)
 				mod[k] = b
 				try(&C03Case{Data: ast.BS(mod), Chunks: chunks, FailAt: -1, Prog: prog, What: fmt.Sprintf("byte %d replaced by %q", k, b)}, "corruption")
+				try(&C03Case{Data: ast.BS(mod), Chunks: nil, FailAt: -1, EOFData: true, Prog: prog, What: fmt.Sprintf("byte %d replaced by %q, one read that also reports end of input", k, b)}, "corruption", "last-bytes-with-eof")
 			}
 		}
 		vals, _ := refSplit([]byte(stream))
@@ -522,6 +523,8 @@ func TestC03(t *testing.T) {
 				ch := rapid.SampledFrom([]string{"]", "}", ",", "x", " ] ", ":"}).Draw(rt, "straych")
 				mod := stream[:v.end] + ch + stream[v.end:]
 				try(&C03Case{Data: ast.BS(mod), Chunks: chunks, FailAt: -1, Prog: prog, What: fmt.Sprintf("stray %q after the value ending at byte %d", ch, v.end)}, "stray-between-values")
+				try(&C03Case{Data: ast.BS(mod), Chunks: nil, FailAt: -1, EOFData: true, Prog: prog, What: fmt.Sprintf("stray %q after the value ending at byte %d, one read that also reports end of input", ch, v.end)}, "stray-between-values", "last-bytes-with-eof")
+				try(&C03Case{Data: ast.BS(mod), Chunks: chunks, FailAt: -1, EOFData: true, Prog: prog, What: fmt.Sprintf("stray %q after the value ending at byte %d, the last read also reports end of input", ch, v.end)}, "stray-between-values", "last-bytes-with-eof")
 			}
 		}
 	})
